@@ -1729,7 +1729,7 @@ def _extend_children(children, item, get_handler):
                 pass
     else:
         try:
-            for key in keys(item):
+            for key in list(keys(item)):  # (reading may re-order the mapping: an LRU cache)
                 try:
                     children.append(get(item, key))
                 except Exception:
